@@ -22,11 +22,21 @@ from harness.pydrv.netdriver import NetDriver
 logging.getLogger("pydcop").setLevel(logging.ERROR)   # mgm2 warns on every refused GO
 
 
+NAME_STYLE = None      # set by run_case from case["names"]
+
+
 def vname(i):
+    """computation / variable name of index i.  Default v%02d.  Style "sub" (case["names"] = "sub"): v0, v00,
+    v000, ... - every name is a substring (prefix) of the later ones and the lexical order is still the index
+    order, so the models (which know indices only) are unchanged"""
+    if NAME_STYLE == "sub":
+        return "v" + "0" * (i + 1)
     return "v%02d" % i
 
 
 def vidx(name):
+    if NAME_STYLE == "sub":
+        return len(name) - 2
     return int(name[1:])
 
 
@@ -35,6 +45,8 @@ def _int(x):
         return None
     if isinstance(x, bool):
         return int(x)
+    if isinstance(x, float) and (x != x or x in (float("inf"), float("-inf"))):
+        return x                # inf / nan: only in the oracle-only float stream (hard constraints)
     xi = int(x)
     if xi != x:
         # only in the oracle-only float stream (case["float"]): such cases are never printed for Coq
@@ -65,7 +77,9 @@ def build_dcop(case):
             tbl = dict(zip(v["dom"], v["costs"]))
             var = VariableWithCostFunc(vname(i), dom, (lambda t: (lambda x: t[x]))(tbl), v.get("init"))
         else:
-            var = VariableWithCostDict(vname(i), dom, dict(zip(v["dom"], v["costs"])), v.get("init"))
+            # a None entry = the cost table does not cover this value (cost_for_val gives 0)
+            var = VariableWithCostDict(vname(i), dom, {a: b for a, b in zip(v["dom"], v["costs"]) if b is not None},
+                                       v.get("init"))
         vs.append(var)
         dcop.add_variable(var)
     for k, c in enumerate(case["cons"]):
@@ -205,6 +219,15 @@ def _on_cpu_alarm(signum, frame):
 
 def run_case(case, schedule=None):
     """Run the real computations.  schedule=None: seeded random schedule (policy of the case)."""
+    global NAME_STYLE
+    NAME_STYLE = case.get("names")
+    try:
+        return _run_case(case, schedule)
+    finally:
+        NAME_STYLE = None
+
+
+def _run_case(case, schedule=None):
     import numpy
     seed = case["seed"]
     rng = random.Random(seed)
@@ -279,6 +302,8 @@ def run_case(case, schedule=None):
             run_with_pauses(drv, rng, case.get("max_steps", 400), finished)
         elif schedule is None:
             pol = case.get("policy", "uniform")
+            if pol.startswith("starve:v") and NAME_STYLE:
+                pol = "starve:" + vname(int(pol[8:]))      # the policy names the node in the default style
             drv.run_random(rng, max_steps=case.get("max_steps", 400), policy=pol)
         else:
             for a in schedule:
@@ -373,6 +398,11 @@ def gen_dcop(rng, nmax=5, p_cost=0.3, p_nary=0.25, dmax=3):
         v = dict(dom=dom, init=init, costs=costs)
         if costs is not None and rng.random() < 0.2:
             v["costfunc"] = 1
+        elif costs is not None and rng.random() < 0.3:
+            # cost dict that does not cover the whole domain: cost_for_val is 0 for the missing values
+            for k in range(len(costs)):
+                if rng.random() < 0.4:
+                    costs[k] = None
         vars_.append(v)
     cons = []
     if n >= 2:
@@ -445,18 +475,23 @@ def var_cost(case, i, val):
     v = case["vars"][i]
     if v.get("costs") is None:
         return 0
-    return v["costs"][v["dom"].index(val)]
+    x = v["costs"][v["dom"].index(val)]
+    return 0 if x is None else x
 
 
 def global_cost(case, asg, with_var_costs=True):
     """exact: integers, or for the float stream the exact rational value of every float cost
     (fractions.Fraction(float)), so the oracle's sums have no rounding and no summation order"""
     from fractions import Fraction
-    conv = Fraction if case.get("float") else (lambda x: x)
-    tot = sum(conv(cons_cost(case, k, asg)) for k in range(len(case["cons"])))
+    terms = [cons_cost(case, k, asg) for k in range(len(case["cons"]))]
     if with_var_costs:
-        tot += sum(conv(var_cost(case, i, asg[i])) for i in range(len(case["vars"])))
-    return tot
+        terms += [var_cost(case, i, asg[i]) for i in range(len(case["vars"]))]
+    if case.get("float"):
+        infs = [t for t in terms if t in (float("inf"), float("-inf"))]
+        if infs:
+            return infs[0]      # a violated hard constraint (the stream uses one sign per instance)
+        return sum(Fraction(t) for t in terms)
+    return sum(terms)
 
 
 def cost_tol(case):
@@ -467,8 +502,9 @@ def cost_tol(case):
     from fractions import Fraction
     if not case.get("float"):
         return 0
-    scale = sum(max([abs(x) for x in c["table"]] or [0]) for c in case["cons"])
-    scale += sum(max([abs(x) for x in (v.get("costs") or [0])]) for v in case["vars"])
+    fin = lambda l: [abs(x) for x in l if x is not None and abs(x) != float("inf")] or [0]
+    scale = sum(max(fin(c["table"])) for c in case["cons"])
+    scale += sum(max(fin(v.get("costs") or [0])) for v in case["vars"])
     return Fraction(1, 10 ** 9) * max(1, Fraction(scale))
 
 
@@ -511,7 +547,7 @@ def coq_dcop(case):
     from harness import coqio as q
     vs = []
     for i, v in enumerate(case["vars"]):
-        costs = q.lst([q.pair(q.z(a), q.z(b)) for a, b in zip(v["dom"], v["costs"])]) if v.get("costs") is not None else "[]"
+        costs = q.lst([q.pair(q.z(a), q.z(b)) for a, b in zip(v["dom"], v["costs"]) if b is not None]) if v.get("costs") is not None else "[]"
         vs.append(q.pair(q.z(i), "mkV %s %s %s" % (q.zlist(v["dom"]), q.opt(v.get("init"), q.z), costs)))
     cs = []
     for c in case["cons"]:
@@ -686,12 +722,12 @@ def floatify(rng, vars_, cons):
     q = rng.choice([10, 10, 10, 3, 7])
     for v in vars_:
         if v.get("costs") is not None:
-            v["costs"] = [float(x) / q for x in v["costs"]]
+            v["costs"] = [None if x is None else float(x) / q for x in v["costs"]]
     for c in cons:
         c["table"] = [float(x) / q for x in c["table"]]
 
 
-def gen_cycle_cases(rng, n, algos, p_float=0.12):
+def gen_cycle_cases(rng, n, algos, p_float=0.18):
     """cases for the cost properties: more cycles, complete runs mostly.  A low-weight ORACLE-ONLY stream
     (case["float"] = 1, mgm only, never printed for Coq) has non-integer costs."""
     cases = []
@@ -703,6 +739,12 @@ def gen_cycle_cases(rng, n, algos, p_float=0.12):
         vars_, cons = gen_dcop(rng, nmax=5, p_cost=0.6 if isf else rng.choice([0.0, 0.3, 0.6]))
         if isf:
             floatify(rng, vars_, cons)
+        mode = rng.choice(["min", "max"])
+        if isf and cons and rng.random() < 0.5:
+            # an unsatisfiable hard constraint: every entry of one constraint is +inf (min) / -inf (max), so
+            # its variables have an infinite local cost whatever they do and announce the gain inf - inf = nan
+            hard = rng.choice(cons)
+            hard["table"] = [float("inf") if mode == "min" else float("-inf")] * len(hard["table"])
         k = rng.randint(2, 7)
         full = rng.random() < 0.85
         params = {}
@@ -713,7 +755,7 @@ def gen_cycle_cases(rng, n, algos, p_float=0.12):
             # break_mode=random: on the code as it is _break_ties tests `self.break_mode == random` (the
             # module), always false, so it behaves exactly as the default lexical mode (= the model)
             params = dict(break_mode="random")
-        cases.append(dict(algo=algo, mode=rng.choice(["min", "max"]), stop_cycle=k, params=params, vars=vars_,
+        cases.append(dict(algo=algo, mode=mode, stop_cycle=k, params=params, vars=vars_,
                           cons=cons, seed=rng.randrange(10 ** 9), policy=policy_for(rng, len(vars_)),
                           max_steps=4000 if full else rng.randint(5, 120), full=1 if full else 0))
         if isf:
@@ -721,6 +763,8 @@ def gen_cycle_cases(rng, n, algos, p_float=0.12):
         if rng.random() < 0.15:
             cases[-1]["pauses"] = 1      # startlate schedule with pause / resume (run_with_pauses)
             cases[-1]["policy"] = "startlate+pauses"
+        if rng.random() < 0.12:
+            cases[-1]["names"] = "sub"   # v0, v00, v000 ...: every name is a substring of the later ones
     return cases
 
 
